@@ -1088,6 +1088,9 @@ func c10ChildOnce(dir string, gi, attempt int, batch []c10Scn) ([]c10Scn, string
 	cmd := exec.Command(os.Args[0], "c10-child", in, out)
 	cmd.Dir = wd
 	cmd.Env = append(os.Environ(), "GOTRACEBACK=single")
+	if c10Tier != "thorough" && os.Getenv("C10_WAIT_CAP_S") == "" {
+		cmd.Env = append(cmd.Env, "C10_WAIT_CAP_S=12")
+	}
 	sb := &strings.Builder{}
 	cmd.Stderr = &capWriter{sb: sb}
 	cmd.Stdout = cmd.Stderr
@@ -1210,7 +1213,10 @@ func c10Class(s *c10Scn) string {
 	return fmt.Sprintf("pool=%d ht=%d udp=%v %s [%s]", s.Cfg.Pool, s.Cfg.HT, s.UDP, s.Kind, strings.Join(ks, ","))
 }
 
+var c10Tier string
+
 func c10Main(a Args) {
+	c10Tier = a.Tier
 	p := Prop[c10Scn]{
 		ID:       "C10",
 		Require:  "From TarsV Require Import Base.Hex Codec.GenCodec Rpc.Invoke.",
